@@ -519,6 +519,8 @@ def install(ip):
             return str(v)
         if isinstance(v, Sym) and v.ty == "str":
             return v
+        if type(v).__name__ == "StrParts":
+            return Sym(ip.to_z3(v), "str")
         if isinstance(v, Sym) and v.ty == "int":
             f = ufun("str_of_int", zu.IntS, zu.StrS)
             return Sym(f(v.t), "str")
@@ -997,7 +999,18 @@ def install(ip):
         return ArrayVal(code, PList([], elty=elty))
     mod("array", array=BuiltinClass("array", (), array_ctor))
     mod("json", loads=Opaque("json.loads"), dumps=Opaque("json.dumps"), JSONDecodeError=ip.exc_classes["JSONDecodeError"])
-    mod("base64", b64encode=Opaque("base64.b64encode"), b64decode=Opaque("base64.b64decode"))
+    def _b64(name):
+        def f(ip, a, k):
+            v = a[0]
+            if isinstance(v, bytes):
+                import base64
+                return getattr(base64, name)(v)
+            r = ufun(name, zu.BytesS, zu.BytesS)(v.t)
+            if name == "b64encode":
+                ip.path.assume(ufun("valid_utf8", zu.BytesS, zu.BoolS)(r))     # base64 text is ASCII
+            return Sym(r, "bytes")
+        return Builtin(name, f)
+    mod("base64", b64encode=_b64("b64encode"), b64decode=_b64("b64decode"))
     mod("threading", RLock=Builtin("RLock", lambda ip, a, k: _NullCtx()), Lock=Builtin("Lock", lambda ip, a, k: _NullCtx()))
     mod("math", ceil=Opaque("math.ceil"), floor=Opaque("math.floor"), log=Opaque("math.log"), sqrt=Opaque("math.sqrt"))
 
